@@ -403,7 +403,7 @@ def threads_one(target, wl_seed, nthreads, nops, mode, fams, miri_seeds, rate, g
 
 def miri_threads_engine(prop, tier, seed):
     quick = tier == "quick"
-    nwl = 8 if quick else 64
+    nwl = 8 if quick else 32
     per = 4 if quick else 8
     import random
     r = random.Random(seed)  # python's Mersenne twister is specified; seeded -> deterministic plan
